@@ -29,6 +29,7 @@ func vhStored(cls int) interface{} {
 
 //verif:shards 5
 //verif:bounds rows of 1..2 values over the 5 storage classes (int64/float64 full range, text/blob of 0..2 free bytes) x 0..3 destinations each of 10 kinds (string, []byte, int64, int32, int, bool, float64, time.Time, nil, unsupported); numeric text parsing, number formatting and time parsing are library stubs (only error propagation is decided there)
+//verif:prop C18,C20
 func VH_C18_scan() {
 	cls0 := sdb.VerifShard(5)
 	width := 1 + sdb.VerifChoice(2)
